@@ -164,7 +164,7 @@ func searchIndex(p *binary.BinaryProtocol, idx int, elementWireType proto.WireTy
 				if cnt < idx {
 					p.Read += n
 				}
-				result = p.Read + n
+				result = p.Read
 			} else {
 				// the list ends with the buffer: there is no element cnt
 				return p.Read, errNotFound
